@@ -94,7 +94,7 @@ func (h Holder) MRZ() string {
 			docField = h.DocNo[:9]
 			docCD = "<"
 			rest := h.DocNo[9:]
-			opt = pad(rest+CheckDigit(h.DocNo)+"<", 7)
+			opt = pad(rest+CheckDigit(h.DocNo)+"<"+h.Optional, 7)
 		}
 		l2 := docField + docCD + pad(h.Nationality, 3) + h.DOB + CheckDigit(h.DOB) + pad(h.Sex, 1) + h.DOE + CheckDigit(h.DOE) + opt
 		comp := CheckDigit(l2[0:10] + l2[13:20] + l2[21:35])
